@@ -27,9 +27,10 @@ Definition C05_roundtrip_full_statement : Prop :=
    the dumper creates), masked arrays, RandomState and Generator (through their state dicts), functools.partial;
    bytes / bytearray and their subclasses whose class name resolves at load (the content is an opaque token in a member
    u<n>.bin named by the dumper's uuid counter, NOT by the object id); rank-1 object-dtype arrays (exact numpy.ndarray,
-   shape [len(cells)], at most 256 cells so that len(obj) is one of CPython's cached small ints, itself an object of the
-   value's universe `objs`) whose cells are ANY values of the fragment, shared or not: the cells travel as the content of
-   the list tolist() creates, the shape as a fresh tuple the dumper creates around the cached int (CodecShareFacts.objarr_Q).
+   shape [len(cells)], any length incl. 0) whose cells are ANY values of the fragment, shared or not: the cells travel as
+   the content of the list tolist() creates, the shape as a fresh tuple the dumper creates around len(obj) -- one of
+   CPython's cached small ints when len(obj) <= 256 (then an object of the value's universe `objs`, possibly met before as
+   a cell or elsewhere in the value: a reference), a fresh int object otherwise (CodecShareFacts.shape_node, objarr_Q).
    A shared array is written once and referenced from every occurrence (member lookup by name: ShowFacts.show_Z_inj).
    A shared bytes object is written once PER OCCURRENCE (u<n>.bin, u<n'>.bin, ... with the same content: that is what
    bytes_get_state does); the loader builds the node of the first occurrence from whichever of these names the file
@@ -41,8 +42,8 @@ Definition C05_roundtrip_full_statement : Prop :=
    emits is loaded by get_tree + construct to exactly v, identity labels included -- the same sharing.
    c05_guard = fragb (the fragment) && objs_wf (labels) && need v <= default_fuel (nesting depth below the fuel).
    Still missing from the full statement: object-dtype arrays of rank >= 2 (nested tolist() lists and the
-   np.array(..., dtype="O") rebuild; with sequence cells that is finding D10) and of rank 0, rank-1 object arrays with more
-   than 256 cells (len(obj) is then a fresh int object), scipy sparse *arrays* (object path).  The statement is about the entry points: dumps_model (incl. the root
+   np.array(..., dtype="O") rebuild; with sequence cells that is finding D10) and of rank 0, scipy sparse *arrays*
+   (object path).  The statement is about the entry points: dumps_model (incl. the root
    fields protocol/_skops_version of _save) does not raise and loads_model returns v.  The missing kinds are covered by the per-case evaluation `c05_case_same`
    and by the correspondence with the implementation (harness/props/c05.py). *)
 Theorem C05_roundtrip_partial :
@@ -113,6 +114,13 @@ Proof. repeat split; vm_compute; reflexivity. Qed.
 Example C05_nonvacuous_objarr :
   c05_guard wf (wd Snapshot.current) wbase wobjarr = true
   /\ roundtrip Snapshot.registry Snapshot.current wf (wd Snapshot.current) wbase wobjarr = Ok wobjarr.
+Proof. repeat split; vm_compute; reflexivity. Qed.
+
+(* an object array with 257 cells: len(obj) is not a cached small int, the shape tuple holds a fresh int object *)
+Example C05_nonvacuous_objarr_long :
+  let v := PObjArr 60 (s "numpy") (s "ndarray") [257%Z] (repeat (pint 1) 256 ++ [pstr_ 61 "last"]) in
+  c05_guard wf (wd Snapshot.current) wbase v = true
+  /\ roundtrip Snapshot.registry Snapshot.current wf (wd Snapshot.current) wbase v = Ok v.
 Proof. repeat split; vm_compute; reflexivity. Qed.
 
 (* the complete pipeline dumps -> schema.json -> get_tree -> construct on a value of the full grammar
